@@ -1254,10 +1254,174 @@ def ge_returns_for_term(s_term, repo=None):
     return [(z3.Not(is_none), reg_lookup(val, repo)), (z3.And(is_none, mime_ok(p, repo)), reg_lookup(mime_ft(p, repo), repo))]
 
 
+# ---- (round 7) os.path.splitext: axioms A1-A3 discharged on the interpreter's own source --------------------------------
+SPLITEXT = "genericpath.py::_splitext"
+
+
+def stdlib_dirs():
+    """directories holding the genericpath.py of (a) the interpreter the library's suite / the native replayer runs with and
+    (b) the interpreter of this checker; (a) first"""
+    import os as _os
+    import subprocess as _sp
+    import genericpath as _gp
+    out = []
+    if _os.environ.get("VERIF_STDLIB"):       # another interpreter's Lib directory (colon-separated list)
+        return [d for d in _os.environ["VERIF_STDLIB"].split(":") if d]
+    try:
+        r = _sp.run(["/venv/bin/python", "-c", "import genericpath;print(genericpath.__file__)"], capture_output=True, text=True, timeout=20)
+        if r.returncode == 0 and r.stdout.strip().endswith("genericpath.py"):
+            out.append(_os.path.dirname(r.stdout.strip()))
+    except (OSError, _sp.SubprocessError):
+        pass
+    d = _os.path.dirname(_gp.__file__)
+    if d not in out:
+        out.append(d)
+    return out
+
+
+def m_rfind(ex, st, args, kwargs, node):
+    """builtin str.rfind for a ONE-character constant needle c, by its definition: -1 iff c does not occur; else the k with
+    s == a + c + b, k == len(a), c not in b (sound and complete for one character; anything else: no model)"""
+    from pyvc.values import VInt
+    s = args[0]
+    c = args[1].const() if len(args) == 2 and isinstance(args[1], VStr) else None
+    if not isinstance(s, VStr) or c is None or len(c) != 1 or kwargs:
+        return ex.havoc_call(st, "str.rfind", args, node)
+    ct = z3.StringVal(c)
+    a, b = z3.String(fresh_name("rfind!a")), z3.String(fresh_name("rfind!b"))
+    nf = st.fork().assume(z3.Not(z3.Contains(s.t, ct)))
+    fd = st.assume(z3.And(s.t == z3.Concat(a, ct, b), z3.Not(z3.Contains(b, ct))))
+    return [(nf, VInt(z3.IntVal(-1))), (fd, VInt(z3.Length(a)))]
+
+
+class SliceExecutor(Executor):
+    """string slices whose bounds the path condition places inside the string are emitted as the plain `substr` (each bound
+    justified by a small solver query on the current path; not entailed / no answer: the engine's clamped form, which is always
+    right and only slower for the solvers)"""
+
+    def _entails(self, st, f):
+        so = z3.Solver()
+        so.set("timeout", 1500)
+        so.add(*st.pc)
+        so.add(z3.Not(f))
+        return so.check() == z3.unsat
+
+    def str_slice(self, st, base, sl, node):
+        if sl.step is not None:
+            return super().str_slice(st, base, sl, node)
+        ln = z3.Length(base.t)
+
+        def norm(e, dflt):
+            if e is None:
+                return dflt
+            t = self._ev_int1(e, st, node)
+            if self._entails(st, z3.And(t >= 0, t <= ln)):
+                return z3.simplify(t)
+            return z3.simplify(z3.If(t < 0, z3.If(t + ln < 0, z3.IntVal(0), t + ln), z3.If(t > ln, ln, t)))
+        lo, hi = norm(sl.lower, z3.IntVal(0)), norm(sl.upper, ln)
+        n = z3.simplify(hi - lo) if self._entails(st, hi >= lo) else z3.If(hi - lo < 0, z3.IntVal(0), hi - lo)
+        return [(st, VStr(z3.SubString(base.t, lo, n)))]
+
+
+def splitext_contract():
+    """`genericpath._splitext(p, '/', None, '.')` -- what posixpath.splitext(str) calls -- satisfies exactly the axioms the
+    router proofs assume of the uninterpreted E / ROOT (`splitext_axioms`), and raises nothing, for EVERY string p."""
+    from pyvc.contracts import LoopSpec
+    from pyvc.verify import p_const
+
+    def parts(c):
+        r = c.result
+        if not (isinstance(r, VTuple) and len(r.items) == 2 and all(isinstance(x, VStr) for x in r.items)):
+            raise ops.Unsupported("result of _splitext is not a pair of strings")
+        return r.items[0].t, r.items[1].t
+
+    dot, sl = z3.StringVal("."), z3.StringVal("/")
+    A1 = lambda c: (lambda root, e: z3.Or(e == z3.StringVal(""), z3.PrefixOf(dot, e)))(*parts(c))
+    A2 = lambda c: (lambda root, e: z3.Not(z3.Contains(z3.SubString(e, 1, z3.Length(e)), dot)))(*parts(c))
+    A3 = lambda c: (lambda root, e: z3.Not(z3.Contains(e, sl)))(*parts(c))
+    A4 = lambda c: (lambda root, e: z3.Concat(root, e) == _s(c, "p"))(*parts(c))
+
+    def inv(lc):
+        from pyvc.ops import int_term
+        fi, d, sp = int_term(lc["filenameIndex"]), int_term(lc["dotIndex"]), int_term(lc["sepIndex"])
+        return z3.And(fi >= sp + 1, fi <= d, sp >= -1)
+
+    def dec(lc):
+        from pyvc.ops import int_term
+        return int_term(lc["dotIndex"]) - int_term(lc["filenameIndex"])
+
+    return FnContract(
+        target=SPLITEXT,
+        params=[("p", p_str()), ("sep", p_const("/")), ("altsep", p_const(None)), ("extsep", p_const("."))],
+        ensures=[("A1-extension-empty-or-starts-with-dot", A1), ("A2-no-further-dot-in-extension", A2),
+                 ("A3-no-separator-in-extension", A3), ("A4-root+extension-is-the-path", A4)],
+        requires=lambda c: z3.And(ops.eq_term(c.args["sep"], VStr("/")), ops.eq_term(c.args["altsep"], NONE), ops.eq_term(c.args["extsep"], VStr("."))),
+        raises=[], total=True,
+        loops={0: LoopSpec(inv=inv, decreases=dec, label="leading-dots")},
+        note="os.path.splitext on POSIX = genericpath._splitext(p, '/', None, '.'): the axioms A1-A3 (+ root + ext == p) that every "
+             "router proof assumes of the uninterpreted splitext are proved on the interpreter's own source")
+
+
+def _drop_unused_decompositions(ex, c, obls):
+    """post-generation hook: z3 gives up (`unknown`, not `sat`) on VCs whose path condition holds TWO decompositions of the same
+    string (p == a + "." + b and p == a' + "/" + b') even when the goal needs only one.  A VC that is already valid WITHOUT the
+    decomposition whose fresh names the goal does not mention is replaced by that stronger VC (fewer hypotheses: implies the
+    original); anything else is left as generated (z3, then cvc5)."""
+    for ob in obls.values():
+        for vc in ob.vcs:
+            used = set(_decls(vc.goal))
+            keep = [h for h in vc.pc if not (any(d.startswith("rfind!") for d in _decls(h)) and
+                                             not any(d.startswith("rfind!") and d in used for d in _decls(h)))]
+            if len(keep) == len(vc.pc):
+                continue
+            so = z3.Solver()
+            so.set("timeout", 1500)
+            so.add(*keep)
+            so.add(z3.Not(vc.goal))
+            if so.check() == z3.unsat:
+                vc.pc = keep
+
+
+def splitext_stdlib(repo, tier):
+    """The assumed model `m_splitext` (uninterpreted E / ROOT + `splitext_axioms`) stays the call-site view of os.path.splitext;
+    this EXTRA discharges those axioms on the real body of `genericpath._splitext` of the interpreter(s) on this host (the source
+    is re-read on every run; `str.rfind` with a one-character needle by definition, slices / comparisons by the engine)."""
+    from pyvc import verify
+    from pyvc.contracts import Registry
+    from pyvc.exctypes import Universe
+    obls, fns = [], []
+    seen = set()
+    for d in stdlib_dirs():
+        try:
+            sha = loader.module(SPLITEXT.split("::")[0], d).fn_info("_splitext")["segment_sha256"]
+        except (OSError, KeyError, SyntaxError) as e:
+            raise ops.Unsupported(f"{d}: no readable genericpath._splitext ({type(e).__name__})")
+        if sha in seen:
+            continue                       # the same source text in both interpreters: proved once
+        reg = Registry()
+        reg.ext_models["str.rfind"] = m_rfind
+        c = splitext_contract()
+        # (z3 gives up on the word equation a + "." + b == a' + "/" + b' of the path with both characters present; cvc5 closes those
+        # four VCs in ~0.05 s: a short z3 budget only bounds the time wasted before the second solver is asked)
+        rep = verify.run_contract("C07", c, reg, Universe(repo), repo=d, timeout_ms=12000 if tier == "thorough" else 5000,
+                                  executor_cls=SliceExecutor, post_hooks=(_drop_unused_decompositions,))
+        if rep.error or rep.out_of_subset:
+            raise ops.Unsupported(f"{d}: {(rep.error or rep.out_of_subset)[:200]}")
+        seen.add(sha)
+        for o in rep.obligations:
+            o["function"] = f"{d}/{SPLITEXT}"
+            if len(seen) > 1:
+                o["id"] += f"@{d.rsplit('/', 1)[-1]}"
+            obls.append(o)
+        fns.append(dict(rep.info, function=f"{d}/{SPLITEXT}", paths=rep.paths, obligations=len(rep.obligations), stdlib=True))
+    return {"obligations": obls, "functions": fns}
+
+
 EXTRA = [_guarded(public_surface, "C07/__init__.py::public-surface/policy#entry-points-are-the-router-functions"),
          _guarded(absent_wrappers, "C07/archive_extractor.py::cached-router-wrappers/vacuous#absent"),
          _guarded(policy, "C07/router.py::tables/module-invariant#tables-evaluate-to-constants"),
          _guarded(member_loops, "C07/archive_extractor.py::member-loops/call-site#skip-rule-and-dispatch-see-the-same-member-name"),
+         _guarded(splitext_stdlib, "C07/genericpath.py::_splitext/out-of-subset", "genericpath.py::_splitext"),
          _guarded(attachments_site, "C07/data_types.py::EmailContent.iterate_supported_attachments/out-of-subset",
                   "sharepoint2text/parsing/extractors/data_types.py::EmailContent.iterate_supported_attachments")]
 
